@@ -337,6 +337,14 @@ class Facts:
     def fns_in(self, parent):
         return [f for f in self.fn.values() if f.get('parent') == parent]
 
+    def intern_fn(self):
+        """string_pool::intern, whatever further (defaulted) parameters it has grown: the one member of that name taking the word."""
+        c = [f for f in self.fn.values() if f['name'] == 'intern' and f.get('parent') == 'ipr::util::string_pool' and f.get('body')
+             and f['params'] and 'basic_string_view' in f['params'][0]['t']]
+        if len(c) != 1:
+            raise AnalysisBroken(f'anchor function vanished: string_pool::intern(word_view ...) ({len(c)} candidates)')
+        return c[0]
+
     def need_fn(self, fid):
         f = self.fn.get(fid)
         if f is None:
